@@ -20,8 +20,6 @@ from props import c10
 
 ID = 'C11'
 MODULE = 'PyTough.Props.C11'
-CLAIMED = False          # flipped when the check is complete
-NOT_CLAIMED_REASON = 'being built'
 TARGETS = ['PyTough.Props.C11', 'drv_c11']
 THEOREMS = ['Props.C11.' + t for t in [
     'transition_type_matches_source', 'transition_table_covers_domain', 'centre_condition_matches_source',
@@ -29,8 +27,19 @@ THEOREMS = ['Props.C11.' + t for t in [
     'subdivision_boundary_identity', 'area_additive_over_chain', 'refine_column_conserves_area',
     'decompose_cases_boundary_identity', 'decompose_cases_conserve_area', 'triangulate_conserves_area',
     'decompose_conserves_area', 'split_column_boundary_identity', 'split_column_conserves_area']]
-LEVEL_TEXT = ''
-LEVEL_NOTE = ''
+LEVEL_TEXT = ('Partial proof. Proved in Lean 4 (no sorry), over the subdivision tables regenerated from mulgrids.py on every run: the model of '
+              'transition_type equals the source function on its whole domain; every non-empty set of refined sides of a 3- or 4-sided column '
+              'has a table entry that uses only existing nodes; for every entry and rotation the sub-columns\' directed edges cancel to the '
+              'parent boundary with exactly the refined sides split (decide over the whole table), and therefore - for ALL corner coordinates '
+              'and ANY centre-node position - the signed areas of the new columns add up to the old column\'s (refine, split_column, the 5 '
+              'special cases of decompose_column for every start node, triangulate_column for every number of sides, decompose_column '
+              'whichever branch fires). NOT proved: positivity of each sub-column / point-wise tiling (winding numbers), conformity of the '
+              'whole refined mesh, conservation for the whole geometry and refine_layers - these are evaluated in exact arithmetic by the '
+              'oracle on every explored history and the whole-geometry model is tied to the code by the C10 correspondence.')
+LEVEL_NOTE = ('Trusted: Lean kernel (+propext, Classical.choice, Quot.sound); the translator harness/translate/refine_tables.py (tables are '
+              'ast.literal_eval of the source; transition_type is compiled from its own AST and tabulated); Model/Refine.lean tied by the '
+              'refine_column facet (every column refined by the real code, 1800+ per quick run); IEEE rounding of mid-side / centre positions '
+              '(tolerances scaled by coordinate magnitude; exact equality demanded on dyadic inputs).')
 TECHNIQUE = 'Lean 4 proof over generated subdivision tables (decide over the whole table + algebraic lifting to all coordinates) + differential correspondence + exact-arithmetic oracle'
 ASSUMPTIONS = []
 TRUSTED_EXTRA = []
@@ -381,6 +390,14 @@ def compare_with_model(res, fac, model_cases):
             continue
         fac['cases'] += 1
         res.count('model:' + c['op'])
+        if c['op'] == 'refine':
+            h = res.hyp.setdefault('refine_column_conserves_area: nn in {3,4}, sides a non-empty ascending sub-list of range(nn)', [0, 0])
+            h[1] += 1
+            h[0] += c['nn'] in (3, 4) and len(c['sides']) > 0 and c['sides'] == sorted(set(c['sides'])) and all(0 <= x < c['nn'] for x in c['sides'])
+        elif c['op'] == 'decompose_columns':
+            h = res.hyp.setdefault('decompose_conserves_area: straight node indices < nn', [0, 0])
+            h[1] += 1
+            h[0] += all(0 <= x < c['nn'] for x in (c['straight'][0] if c['straight'] else []))
         impl = canon_subs(c['subs'])
         if c['op'] == 'split_column':
             # the model answers with one line per possible split node; the real split must be one of them
